@@ -47,7 +47,20 @@ def gen_cases(rng, tier):
 
 def run_case(case):
     res = common.CaseResult()
-    r = hexlib.HexRunner(res, case["prune"], None)
+    its = {}
+
+    def observe(runner, tg, trie, model):
+        # one NodeIterator object reused between mutations
+        it0 = its.setdefault("it", NodeIterator(trie))
+        try:
+            ks = list(it0.keys())
+            if ks != sorted(model):
+                res.fail("keys-wrong", "mid-history keys() = %r, sorted keys are %r" % (ks, sorted(model)))
+            res.emit("hx.items 0", ";".join("%s=%s" % (hx(k), hx(v)) for k, v in it0.items()) or "-")
+        except Exception as e:  # noqa
+            res.fail("iterator-raised", "mid-history iteration raised %r" % (e,))
+
+    r = hexlib.HexRunner(res, case["prune"], observe)
     r.run(case["ops"])
     trie, model = r.trie, r.model
     rng = common.mk_rng(case["pseed"], "next")
